@@ -81,12 +81,13 @@ Definition alt_ok (d : tyden) (c : N) (s : schema) : Prop :=
   match s with
   | SStruct (Some t) _ => ok t
   | SPtr (SStruct (Some t) _) => ok t
+  | SCustom (Some t) _ _ => ok t
   | _ => False
   end.
 
 Fixpoint wf (s : schema) : Prop :=
   match s with
-  | SByteArr _ ty => code_ok ty
+  | SByteArr _ ty | SCustom ty _ _ => code_ok ty
   | SPtr s' => wf s'
   | SStruct ty fs => code_ok ty /\ wf_fields fs
   | SSlice _ _ e | SArr _ _ _ e => wf e /\ zero_size e = false
@@ -541,6 +542,17 @@ Proof.
     rewrite firstn_le_enc, le_dec_enc_small; auto.
 Qed.
 
+(* the custom decoder reads back what the custom encoder wrote, whatever follows *)
+Lemma custom_dec_enc_app : forall f bs body rest, custom_enc f bs = Ok body ->
+  custom_dec f (body ++ rest) = Ok (bs, length body).
+Proof.
+  intros [n |] bs body rest H; unfold custom_enc in H; unfold custom_dec.
+  - destruct (Nat.eqb (length bs) n) eqn:E; try discriminate. apply Nat.eqb_eq in E. apply ok_inj in H as <-.
+    subst n. rewrite take_app. reflexivity.
+  - destruct (length bs <? 256)%nat; try discriminate. apply ok_inj in H as <-.
+    cbn [app]. rewrite Nat2N.id, take_app. reflexivity.
+Qed.
+
 Theorem roundtrip_all : (forall s, Pr s) /\ (forall fs, Rf fs) /\ (forall al, Ra al).
 Proof.
   apply schema_fields_alts_ind; unfold Pr.
@@ -644,6 +656,12 @@ Proof.
     cbn [encode] in H. destruct v; try discriminate. cbn [good] in Hg.
     destruct (IH d Hwf val tot c v b rest Hg H Hlen) as [Hd Hp].
     cbn [decode canon]. rewrite Hp. cbn [bind]. rewrite Hd. reflexivity.
+  - (* SCustom: for EVERY validator predicate p *) intros ty f p. split; [| exact I]. intros Hwf val tot d v b rest _ H _.
+    cbn [encode] in H. destruct v; try discriminate.
+    destruct (val && negb (valid_ok p bs)) eqn:Ev; try discriminate.
+    apply bind_ok in H as [body [Hb H]]. apply ok_inj in H as <-. cbn [decode canon]. rewrite <- app_assoc.
+    rewrite check_code_enc by exact Hwf. cbn [bind]. rewrite skipn_app_exact.
+    rewrite (custom_dec_enc_app _ _ _ _ Hb). cbn [bind]. rewrite Ev, app_length. reflexivity.
   - (* FNil *) intros _ val tot vs b rest _ H _. cbn [encode_fields] in H. destruct vs; try discriminate.
     apply ok_inj in H as <-. reflexivity.
   - (* FCons *) intros k s [IHs IHemb] r IHr [Hws [Hwr Hk]] val tot vs b rest Hg H Hlen.
@@ -706,6 +724,10 @@ Proof.
         -- destruct ty as [t |]; try contradiction. destruct Hao as [Hc Hd].
            cbn [encode] in H. destruct v; try discriminate.
            apply bind_ok in H as [body [_ H]]. apply ok_inj in H as <-. apply peek_struct; auto. cbn [wf] in Hws. apply Hws.
+        -- (* SCustom (Some t) f p *)
+           destruct ty as [t |]; try contradiction. destruct Hao as [Hc Hd].
+           cbn [encode] in H. destruct v; try discriminate. destruct (val && negb _); try discriminate.
+           apply bind_ok in H as [body [_ H]]. apply ok_inj in H as <-. apply peek_struct; auto.
     + eapply IHr; eauto.
 Qed.
 
